@@ -153,6 +153,14 @@ fn viol(kind: &str, n: &str, cfg: &str, src: &str, expected: String, actual: Str
 
 /// Evaluates every call form of `n` in the (real, model) pair.
 fn check_forms<C: Context<NumericTypes = DefaultNumericTypes>>(real: &C, model: &RCtx, n: &str, cfg: &str, log: Option<&Log>, st: &mut Stats) {
+    check_forms_via(real, model, n, cfg, log, st, None)
+}
+
+type MutEval<'a> = &'a dyn Fn(&evalexpr::Node<DefaultNumericTypes>) -> Result<evalexpr::Value<DefaultNumericTypes>, evalexpr::EvalexprError<DefaultNumericTypes>>;
+
+/// `via_mut`: evaluates a tree through the mutable entry point on a clone of the same context; the call
+/// forms contain no assignment, so the result and the recorded arguments must be those of the immutable one.
+fn check_forms_via<C: Context<NumericTypes = DefaultNumericTypes>>(real: &C, model: &RCtx, n: &str, cfg: &str, log: Option<&Log>, st: &mut Stats, via_mut: Option<MutEval>) {
     for (label, src, ast) in call_forms(n) {
         let tree = match guarded(|| build_operator_tree::<DefaultNumericTypes>(&src)) {
             Ok(Ok(t)) => t,
@@ -190,6 +198,32 @@ fn check_forms<C: Context<NumericTypes = DefaultNumericTypes>>(real: &C, model: 
         st.count(&format!("resolution/{}", resolution));
         let logged: Vec<String> = log.map(|l| l.lock().unwrap().iter().map(|v| v.key()).collect()).unwrap_or_default();
         let want_log: Vec<String> = m.log.iter().filter(|(f, _)| f == n).map(|(_, v)| v.key()).collect();
+        if let Some(ev) = via_mut {
+            if let Some(l) = log {
+                l.lock().unwrap().clear();
+            }
+            let mr = guarded(|| ev(&tree));
+            st.evaluations += 1;
+            st.transitions += 1;
+            let logged_mut: Vec<String> = log.map(|l| l.lock().unwrap().iter().map(|v| v.key()).collect()).unwrap_or_default();
+            let ok = match &mr {
+                Ok(r) => result_matches(&rref, r) && (log.is_none() || logged_mut == want_log),
+                Err(_) => false,
+            };
+            if !ok {
+                st.violation(viol(
+                    "resolution-or-argument-shape-through-eval_with_context_mut",
+                    n,
+                    cfg,
+                    &src,
+                    format!("{} with user-function arguments {:?}", describe(&rref), want_log),
+                    match &mr {
+                        Ok(r) => format!("{} with user-function arguments {:?}", res_dbg(r), logged_mut),
+                        Err(p) => format!("panic at {}: {}", p.location, p.message),
+                    },
+                ));
+            }
+        }
         if !result_matches(&rref, &real_r) || (log.is_some() && logged != want_log) {
             st.violation(viol(
                 "resolution-or-argument-shape",
@@ -220,7 +254,11 @@ pub fn run(cfg: &Cfg) -> Report {
             if hist.len() >= 2 {
                 st.count("nontrivial-distinct");
             }
-            check_forms(real, model, n, &cfg_name(hist), Some(log), st);
+            let via_mut = |t: &evalexpr::Node<DefaultNumericTypes>| {
+                let mut c = real.clone();
+                t.eval_with_context_mut(&mut c)
+            };
+            check_forms_via(real, model, n, &cfg_name(hist), Some(log), st, Some(&via_mut));
             // the switch reads back, and a clone preserves it
             if real.are_builtin_functions_disabled() == model.builtins_enabled || real.clone().are_builtin_functions_disabled() == model.builtins_enabled {
                 st.violation(viol("switch-state", n, &cfg_name(hist), "", format!("builtins enabled = {}", model.builtins_enabled), format!("are_builtin_functions_disabled() = {}", real.are_builtin_functions_disabled())));
@@ -289,7 +327,7 @@ pub fn run(cfg: &Cfg) -> Report {
     Report {
         property: ID,
         level: "model_checking",
-        rule: format!("for each of 52 names (49 builtins, foo, math::foo, str::nothing): every history of length <= {depth} over {{disable builtins, enable, clone-and-continue, clone_from into a used context, clear_functions, clear_variables, define user function n, define failing user function n, bind variable n}} from an empty HashMapContext (contains the complete switch x user-function x variable x {{as built, clone, cleared}} matrix), plus EmptyContext and EmptyContextWithBuiltinFunctions; in every configuration reached, 15 call forms (`n(x)`, `n x` with int and string, `n()`, `n(x, y)`, `n(x, y, z)`, `typeof n x`, `n typeof x`, bare `n`, `n + 1`); oracle: reference resolution (user function first with the documented argument shape, recorded; else builtin table of C10 if enabled; else unknown function) . States = configurations, transitions = evaluations. Non-trivial = configurations reached by >= 2 operations"),
+        rule: format!("for each of 52 names (49 builtins, foo, math::foo, str::nothing): every history of length <= {depth} over {{disable builtins, enable, clone-and-continue, clone_from into a used context, clear_functions, clear_variables, define user function n, define failing user function n, bind variable n}} from an empty HashMapContext (contains the complete switch x user-function x variable x {{as built, clone, cleared}} matrix), plus EmptyContext and EmptyContextWithBuiltinFunctions; in every configuration reached, 15 call forms, each evaluated through `Node::eval_with_context` and (HashMapContext) through `Node::eval_with_context_mut` on a clone (`n(x)`, `n x` with int and string, `n()`, `n(x, y)`, `n(x, y, z)`, `typeof n x`, `n typeof x`, bare `n`, `n + 1`); oracle: reference resolution (user function first with the documented argument shape, recorded; else builtin table of C10 if enabled; else unknown function) . States = configurations, transitions = evaluations. Non-trivial = configurations reached by >= 2 operations"),
         nontrivial_set: "counter:nontrivial-distinct",
         exhaustive: true,
         bound_completed: format!("histories of length {depth}"),
